@@ -95,6 +95,28 @@ func pooledStateIsResetWhole(c *Ctx, rule string, rels ...string) {
 				return out
 			}
 			inReset := fieldsAssigned(reset)
+			// (what Reset assigns through a method of the type it calls — ensureWriter() — is assigned by Reset)
+			// — when the call is made on every pass through Reset (a statement of its body, not inside a branch)
+			for _, rst := range reset.Body.List {
+				es, ok := rst.(*ast.ExprStmt)
+				if !ok {
+					continue
+				}
+				var x ast.Node = es.X
+				if call, ok := x.(*ast.CallExpr); ok {
+					if fn := calleeOf(info, call); fn != nil {
+						for _, m := range methods {
+							if info.Defs[m.Name] == types.Object(fn) {
+								for f, pos := range fieldsAssigned(m) {
+									if _, dup := inReset[f]; !dup {
+										inReset[f] = pos
+									}
+								}
+							}
+						}
+					}
+				}
+			}
 			for _, m := range methods {
 				for f, pos := range fieldsAssigned(m) {
 					_, ok := inReset[f]
